@@ -30,20 +30,60 @@ def stepDetect (line : String) : String :=
 /-- `reader`: `E|I|X <hex> <hex> ...` (E: end of input follows, I: the input stays open and then
 fails, X: the last word is returned by the failing Read itself; one word per Read) → messages joined by ` | ` -/
 def stepReader (line : String) : String :=
-  let ws := words line
+  let ws0 := words line
+  -- `C<k>E` / `C<k>I`: the context is cancelled after k messages were taken
+  let (budget, ws) : Option Nat × List String :=
+    match ws0 with
+    | w :: rest =>
+      if w.startsWith "C" then
+        let body := String.ofList (w.toList.drop 1)
+        let kind := String.ofList (body.toList.drop (body.length - 1))
+        ((String.ofList (body.toList.take (body.length - 1))).toNat?, kind :: rest)
+      else (none, ws0)
+    | [] => (none, ws0)
   let eof := ws.head? == some "E"
   match (ws.drop 1).mapM parseHex with
   | some chunks0 =>
     -- X: the last word came TOGETHER with a non-EOF error: readAnsiInputs looks at the error
     -- first and returns at once; those bytes are never decoded
-    let chunks := if ws.head? == some "X" then chunks0.dropLast else chunks0
-    match readAll Tea.Gen.extSequences Tea.Gen.seqLengths eof chunks [] [] with
-    | .ok (out, _) => " | ".intercalate (out.map fun o =>
+    let T := Tea.Gen.extSequences
+    let lens := Tea.Gen.seqLengths
+    let showOut (out : List Out) : String := " | ".intercalate (out.map fun o =>
         match o.msg with
         | some (.unknownCSI bs) => s!"unknowncsi len={bs.length}"   -- content aliases the read buffer in Go
         | m => descOpt m)
-    | .error e => s!"panic {e.toString}"
+    match budget with
+    | some k =>
+      -- the context is cancelled after k messages were taken (Tea.Input.readAllC)
+      match readAllC T lens eof chunks0 k with
+      | .ok (sent, cancelled) => showOut sent ++ s!" # cancelled={cancelled}"
+      | .error e => s!"panic {e.toString}"
+    | none =>
+      let res := if ws.head? == some "X" then readAllX T lens chunks0.dropLast (chunks0.getLast?.getD [])
+                 else readAll T lens eof chunks0 [] []
+      match res with
+      | .ok (out, _) => showOut out
+      | .error e => s!"panic {e.toString}"
   | none => "bad-op"
+
+/-- `cmdfns`: `B tok...` = Batch, `S tok...` = Sequence on identifiable commands (`n` = nil):
+what comes back (Tea.Runtime.batchFn; a sequence message carries the list as it is) -/
+def stepCmdFns (line : String) : String :=
+  match words line with
+  | kind :: toks =>
+    let parse (t : String) : Option (Option Nat) := if t == "n" then some none else t.toNat?.map some
+    match toks.mapM parse with
+    | none => "bad-op"
+    | some cs =>
+      let show1 (c : Option Nat) : String := match c with | none => "n" | some k => toString k
+      if kind == "B" then
+        match Tea.Runtime.batchFn cs with
+        | none => "nil"
+        | some (.inl c) => s!"cmd {c}"
+        | some (.inr l) => (" ".intercalate ("batch" :: l.map toString))
+      else if kind == "S" then (" ".intercalate ("seq" :: cs.map show1))
+      else "bad-op"
+  | [] => "bad-op"
 
 /-- `every`: `<unix-ns> <d-ns>` → the delay Every arms its timer with -/
 def stepEvery (line : String) : String :=
@@ -356,6 +396,7 @@ def main (args : List String) : IO UInt32 := do
   | ["detect"] => loop stdin stdout stepDetect; return 0
   | ["reader"] => loop stdin stdout stepReader; return 0
   | ["every"] => loop stdin stdout stepEvery; return 0
+  | ["cmdfns"] => loop stdin stdout stepCmdFns; return 0
   | ["render"] => loop stdin stdout stepRender; return 0
   | ["vt"] => loop stdin stdout stepVT; return 0
   | ["glue"] => loop stdin stdout stepGlue; return 0
